@@ -1202,6 +1202,16 @@ def concrete_eval(ctx: Ctx, f: FunctionInfo, e: Optional[ast.AST], env: Dict[str
         em = enum_member(ctx, e)
         if em is not None:
             return em
+        if isinstance(e.value, ast.Name) and e.value.id not in env:
+            # `storage = self.storage` ... `storage.supports_cas`: the scenario names the attribute through the aliased object
+            g_ = ctx.cfg(f)
+            defs_ = ctx.rd(f).reaching(at, e.value.id)
+            if len(defs_) == 1 and next(iter(defs_)) != g_.entry:
+                dn_ = g_.nodes[next(iter(defs_))]
+                if dn_.kind == "stmt" and isinstance(dn_.ast, ast.Assign) and len(dn_.ast.targets) == 1 and isinstance(dn_.ast.targets[0], ast.Name):
+                    base_txt = dotted(dn_.ast.value)
+                    if base_txt and (base_txt + "." + e.attr) in env:
+                        return env[base_txt + "." + e.attr]
         if e.attr == "hex" and isinstance(e.value, ast.Call) and (dotted(e.value.func) or "").split(".")[-1] == "uuid4" and "uuid4().hex" in env:
             return env["uuid4().hex"]  # scenario: the 32 hex digits of a random UUID
         base = ev(e.value)
